@@ -22,8 +22,8 @@ CHECKS = {
  "C15": ("exploration", "§3 C15", "real run and --dry-run from the same simulated world snapshot, names and exclude patterns over {a,b,*,?,.,/}; zero mutating calls in dry runs (trace), printed actions == reference plan == real run's effects; bisync --dry-run compared with a real bisync from the same snapshot",
          "Both runs start from one cloned world, so 'the actions printed are exactly the ones a real run performs' is a direct differential; excludes are judged by an independent matcher. Found and repaired: a pattern '*' consumed as a literal by a '*' in the name.",
          "as C04 and C02"),
- "C03": ("exploration", "§3 C03", "N real `copia serve` processes + client actors under a seeded baton scheduler (uniform / sticky / PCT / sequential) over simulated FS, flock and pipes; Wing-Gong-Lowe linearizability search of the recorded history against a sequential CAS map, final tree included",
-         "Every file-system, flock and pipe step of every server is a scheduling point chosen from the run seed, so interleavings such as 'B slips between A's stage and A's rename' are reached thousands of times per second and replay exactly. The oracle is an exact linearizability search (histories <= 24 ops) with the final hub tree as part of the model state. It found four genuine concurrency defects in serve.rs (shared staging file, non-atomic Get, non-atomic List), all repaired.",
+ "C03": ("exploration", "§3 C03", "N real `copia serve` processes + client actors under a seeded baton scheduler (uniform / sticky / PCT / sequential) over simulated FS, flock and pipes; Wing-Gong-Lowe linearizability search of the recorded history against a sequential CAS map, final tree included; fault batch: one server killed before a seeded file-system call or one of its calls failing with an injected errno, unanswered requests linearized as optional",
+         "Every file-system, flock and pipe step of every server is a scheduling point chosen from the run seed, so interleavings such as 'B slips between A's stage and A's rename' are reached thousands of times per second and replay exactly. The oracle is an exact linearizability search (histories <= 24 ops) with the final hub tree as part of the model state. It found four genuine concurrency defects in serve.rs (shared staging file, non-atomic Get, non-atomic List) and, with injected errors, three acknowledgement defects (commit acknowledged although rename failed, delete acknowledged although unlink failed, unreadable file treated as absent and overwritten), all repaired.",
          "shim call = atomic step; advisory flock; atomic rename; clients use the real wire codec"),
  "C10": ("exploration", "§3 C10", "same simulation with invalid Puts and server kills; path invariant evaluated by the kernel after every applied step; Get len/hash/bytes agreement",
          "The invariant 'each live hub path holds initial content or the complete body of one verified Put addressed to it' is evaluated inside the scheduler after every step that changes the file system, so transient states between two servers' steps are observed, not just end states. Kills are placed before the k-th file-system call of a server.",
